@@ -736,19 +736,27 @@ Proof.
     destruct (MT_lookup _ nm_ANALOG nm_USED KInt1 (KF_MT _ _ _ _ HK)) as [p [Lp _]]; [in_mand|].
     destruct (lookup_inv _ _ _ _ Lp) as [gi2 [gr [pi [Gi _]]]]. rewrite Gi. split; [discriminate|]. intros a _. exact HK. }
   intros gi2.
-  (* nan *)
+  (* the ANALOG group of a well-typed object holds parameters: the "nothing analog anywhere" shortcut is not taken *)
+  eapply h_bind; [apply (h_group_link fs pr nm_ANALOG nm_USED KInt1 [PU; FR; AL]); in_mand|]. intros ga0.
   eapply h_bind.
-  { unfold nan_read. rewrite Fs0. instantiate (1 := fun nan s => KF fs pr [PU; FR] s /\ nan = nan0 s0 nA). unfold nan0. rewrite Fs0. destruct fs as [|f0 t].
-    - eapply h_bind; [apply (h_strs_of [] pr nm_ANALOG nm_LABELS); in_mand|]. intros l.
-      apply h_ret. intros s [HK [R _]]. split; [eapply KF_incl; [exact HK|intros x [<-|[<-|[]]]; cbn; auto]|].
-      destruct HK as [_ [_ [_ D]]]. apply Forall_cons_iff in D. destruct D as [_ D]. apply Forall_cons_iff in D. destruct D as [_ D]. apply Forall_cons_iff in D. destruct D as [D _].
-      rewrite (Vstr_read _ _ _ _ D) in R. injection R as <-. rewrite RA. reflexivity.
-    - unfold nan_of. destruct (fr_subs f0) as [|sf0 r]; apply h_ret; intros s HK; (split; [eapply KF_incl; [exact HK|intros x [<-|[<-|[]]]; cbn; auto]|reflexivity]). }
-  intros nan. apply h_pre_pure. intros ->.
-  (* block 3 *)
-  apply h_unassoc. eapply h_bind.
-  { apply (block_analogs fs pr s0 nA (nan0 s0 nA) [PU; FR] Fs0 S3); try apart_tac.
-    intros f0 t E. unfold nan0. rewrite Fs0, E. reflexivity. }
+  { instantiate (1 := fun _ => KF fs pr [AU; PU; FR]). apply h_when.
+    - intros _. eapply h_conseq with (P' := KF fs pr [PU; FR; AL]) (Q' := fun _ => KF fs pr [AU; PU; FR]); [|intros s [HK _]; exact HK|auto].
+      (* nan *)
+      eapply h_bind.
+      { unfold nan_read. rewrite Fs0. instantiate (1 := fun nan s => KF fs pr [PU; FR] s /\ nan = nan0 s0 nA). unfold nan0. rewrite Fs0. destruct fs as [|f0 t].
+        - eapply h_bind; [apply (h_strs_of [] pr nm_ANALOG nm_LABELS); in_mand|]. intros l.
+          apply h_ret. intros s [HK [R _]]. split; [eapply KF_incl; [exact HK|intros x [<-|[<-|[]]]; cbn; auto]|].
+          destruct HK as [_ [_ [_ D]]]. apply Forall_cons_iff in D. destruct D as [_ D]. apply Forall_cons_iff in D. destruct D as [_ D]. apply Forall_cons_iff in D. destruct D as [D _].
+          rewrite (Vstr_read _ _ _ _ D) in R. injection R as <-. rewrite RA. reflexivity.
+        - unfold nan_of. destruct (fr_subs f0) as [|sf0 r]; apply h_ret; intros s HK; (split; [eapply KF_incl; [exact HK|intros x [<-|[<-|[]]]; cbn; auto]|reflexivity]). }
+      intros nan. apply h_pre_pure. intros ->.
+      (* block 3 *)
+      apply (block_analogs fs pr s0 nA (nan0 s0 nA) [PU; FR] Fs0 S3); try apart_tac.
+      intros f0 t E. unfold nan0. rewrite Fs0, E. reflexivity.
+    - intros E s [HK Hga0]. exfalso. apply Bool.negb_false_iff in E. unfold no_analog_anywhere in E.
+      apply andb_prop in E. destruct E as [E _]. apply andb_prop in E. destruct E as [E _].
+      destruct (param_of_group _ nm_ANALOG nm_USED KInt1 ga0 (KF_MT _ _ _ _ HK)) as [pi [p [Pi _]]]; [in_mand|exact Hga0|].
+      unfold param_idx in Pi. destruct (g_params ga0); [cbn in Pi; discriminate|unfold nlen in E; cbn in E; discriminate]. }
   intros u5.
   apply (st_update_header (KF fs pr [AU; PU; FR])); [apply KF_MT|apply KF_hdr].
 Qed.
